@@ -68,7 +68,7 @@ var RealComponents = []string{
 }
 
 var StubComponents = []string{
-	"ante handler reduced to SetUpContextDecorator; signatures replaced by the rule GetSigners() == {tx signer}",
+	"ante handler reduced to SetUpContextDecorator; signatures replaced by the rule: every account some message requires (GetSigners) is the tx signer, who also pays the fee",
 	"x/gov: governance actor signs authority messages with the gov module address",
 	"consensus / p2p / mempool: seeded sequencer and mempool; block time chosen by the scheduler",
 	"disk: SimDB (in-memory dbm.DB with durable image, torn-commit window, crash injection)",
